@@ -141,6 +141,16 @@ class Repartition(Expr):
         else:
             raise NotImplementedError()
 
+    def _filter_passthrough_available(self, parent, dependents):
+        if (
+            "partition_size" in self._parameters
+            and self.operand("partition_size") is not None
+        ):
+            # The layout is derived from the size of the data: it is another
+            # one for the filtered rows
+            return False
+        return super()._filter_passthrough_available(parent, dependents)
+
     def _simplify_up(self, parent, dependents):
         if isinstance(parent, Filter) and self._filter_passthrough_available(
             parent, dependents
